@@ -5,5 +5,7 @@ cd "$(dirname "$0")"
 export CARGO_NET_OFFLINE=true
 [ -f harness/Cargo.lock ] || cp /repo/Cargo.lock harness/Cargo.lock
 (cd harness && cargo build --release --offline)
+# the command-line level of C14 drives the real binary (dev profile, own target directory)
+cargo build --offline --bin chess --manifest-path /repo/Cargo.toml --target-dir harness/target/chessbin
 mkdir -p work replays evidence
 echo "setup done"
